@@ -262,6 +262,7 @@ type seqResult struct {
 	InfraErr string
 	// observation only: allowed calls on untouched state whose own audit write failed
 	AuditFailAnsweredOK, AuditFailAnsweredErr int
+	Replayed                                  int         // lines ahead of a call's own record after an earlier failed write (tolerated)
 	hashes                                    [][3]string // tool, args, input_hash
 	results                                   [][2]string // class, audit result value
 }
@@ -317,25 +318,7 @@ func prevDesc(spec seqSpec, verdicts []verdict, i int) string {
 	return s
 }
 
-var seqTiming sync.Map
-
-func tAdd(name string, d time.Duration) {
-	v, _ := seqTiming.LoadOrStore(name, new(int64))
-	atomicAdd(v.(*int64), int64(d))
-}
-
 func runSeq(w *worker, spec seqSpec) *seqResult {
-	t0 := time.Now()
-	defer func() {
-		inst := ""
-		for _, st := range spec.Steps {
-			if isInstanceTool(st.Tool) {
-				inst = "+inst"
-			}
-		}
-		tAdd("total:"+spec.Block+":"+spec.Cfg.key()+inst, time.Since(t0))
-		tAdd("count:"+spec.Block+":"+spec.Cfg.key()+inst, 1)
-	}()
 	sr := &seqResult{Spec: spec, Steps: make([]stepObs, len(spec.Steps))}
 	fail := func(key, format string, a ...any) {
 		sr.Findings = append(sr.Findings, finding{key, fmt.Sprintf(format, a...)})
@@ -350,7 +333,6 @@ func runSeq(w *worker, spec seqSpec) *seqResult {
 		sr.InfraErr = "reset: " + err.Error()
 		return sr
 	}
-	tAdd("phase:reset", time.Since(t0))
 	w.rec.take()
 
 	// --- arguments and reference verdicts
@@ -479,8 +461,6 @@ func runSeq(w *worker, spec seqSpec) *seqResult {
 			}
 			if needSnap(prevStep) || needSnap(nextStep) {
 				if last == nil {
-					tt := time.Now()
-					defer func() { tAdd("phase:snap", time.Since(tt)) }()
 					s, err := w.fullSnapshot()
 					if err != nil {
 						snapErr = err.Error()
@@ -509,8 +489,6 @@ func runSeq(w *worker, spec seqSpec) *seqResult {
 			}
 		}
 		srv.In, srv.Out = rd, &so.out
-		tS := time.Now()
-		defer func() { tAdd("phase:serve(incl snapshots)", time.Since(tS)) }()
 		if err := srv.Serve(context.Background()); err != nil {
 			fail("seq:protocol", "Serve failed in session %d: %v", si, err)
 			return sr
@@ -530,8 +508,6 @@ func runSeq(w *worker, spec seqSpec) *seqResult {
 	var signals []string
 	if needSleeper {
 		var exited bool
-		tt := time.Now()
-		defer func() { tAdd("phase:poll", time.Since(tt)) }()
 		signals, exited, err = w.sl.poll()
 		if err != nil {
 			sr.InfraErr = "sleeper: " + err.Error()
@@ -660,9 +636,9 @@ func runSeq(w *worker, spec seqSpec) *seqResult {
 	}
 
 	// --- per-step oracle
-	touched := false     // an earlier call of a mutating tool passed the gate: state is no longer the seeded one
-	sinkHealthy := true  // every sink answer so far was "accept"
-	allDenied := true    // no call of the sequence passes the reference gate
+	touched := false    // an earlier call of a mutating tool passed the gate: state is no longer the seeded one
+	sinkHealthy := true // every sink answer so far was "accept"
+	allDenied := true   // no call of the sequence passes the reference gate
 	for i, st := range spec.Steps {
 		if isListStep(st) {
 			continue
@@ -718,16 +694,31 @@ func runSeq(w *worker, spec seqSpec) *seqResult {
 		// (D) audit
 		if o.Mutating && o.Window != nil && st.Sink == "A" {
 			win := o.Window
+			// JSONL: one record per line. lost = earlier calls of the sequence whose audit write the sink rejected or
+			// truncated: an implementation may re-emit those records (or the rest of a truncated one) ahead of the
+			// record of this call, so after a failure only the LAST line is judged and up to `lost` lines before it
+			// are tolerated; with a clean history the call has to append exactly one line.
+			lost := 0
+			for j := 0; j < i; j++ {
+				if sr.Steps[j].Mutating && spec.Steps[j].Sink != "A" {
+					lost++
+				}
+			}
+			var lines [][]byte
+			for _, l := range bytes.Split(win.accepted, []byte{'\n'}) {
+				if len(bytes.TrimSpace(l)) > 0 {
+					lines = append(lines, l)
+				}
+			}
 			var evs []map[string]any
 			bad := false
-			dec := json.NewDecoder(bytes.NewReader(win.accepted))
-			for {
+			for k, l := range lines {
 				var ev map[string]any
-				if err := dec.Decode(&ev); err != nil {
-					if err != io.EOF {
+				if err := json.Unmarshal(l, &ev); err != nil || ev == nil {
+					if k == len(lines)-1 || lost == 0 {
 						bad = true
 					}
-					break
+					continue
 				}
 				evs = append(evs, ev)
 			}
@@ -735,11 +726,14 @@ func runSeq(w *worker, spec seqSpec) *seqResult {
 			ak := o.Class + ":" + st.Tool + ":" + hist
 			switch {
 			case bad:
-				fail("seq:audit:"+ak+":not-json", "call %d (%s) with an accepting sink appended bytes that are not a sequence of JSON objects: %q (sequence %s)", i, o.Class, cut(win.accepted), spec.key())
-			case len(evs) != 1:
-				fail(fmt.Sprintf("seq:audit:%s:count=%d/1", ak, len(evs)), "call %d (%s, tool %s) with an accepting sink appended %d audit records, want exactly one; the sink saw %d write(s) during the call: %q (sequence %s)", i, o.Class, st.Tool, len(evs), win.writes, cut(win.accepted), spec.key())
+				fail("seq:audit:"+ak+":not-json", "call %d (%s) with an accepting sink appended a line that is not a JSON object: %q (sequence %s)", i, o.Class, cut(win.accepted), spec.key())
+			case len(lines) == 0 || len(lines) > 1+lost:
+				fail(fmt.Sprintf("seq:audit:%s:count=%d/1", ak, len(lines)), "call %d (%s, tool %s) with an accepting sink appended %d audit records, want exactly one (%d earlier record(s) of this server were rejected or truncated by the sink); the sink saw %d write(s) during the call: %q (sequence %s)", i, o.Class, st.Tool, len(lines), lost, win.writes, cut(win.accepted), spec.key())
 			default:
-				ev := evs[0]
+				if len(lines) > 1 {
+					sr.Replayed += len(lines) - 1
+				}
+				ev := evs[len(evs)-1]
 				for _, f := range auditFields {
 					if _, ok := ev[f]; !ok {
 						fail("seq:audit:"+ak+":missing:"+f, "audit record of call %d lacks %q: %v (sequence %s)", i, f, ev, spec.key())
@@ -895,15 +889,13 @@ func allSeqs(thorough bool) []seqSpec {
 		}
 		out = append(out, seqSpec{Block: block, Cfg: cfg, Split: split, Steps: steps})
 	}
-	alphabet, maxLen := "AFS", 3
-	if thorough {
-		alphabet, maxLen = "AFST", 4
-	}
+	all := mutatingElems(nil)
+	inst := mutatingElems(isInstanceTool)
 
-	// Block "sink": the same call L times, every sink sequence, both session splits.
-	sinkBlock := func(cfg gateCfg, elems []callElem, alphabet string, maxLen int) {
+	// Block "sink": the same call L times, every sink sequence of that length, both session splits.
+	sinkBlock := func(cfg gateCfg, elems []callElem, alphabet string, minLen, maxLen int) {
 		for _, e := range elems {
-			for L := 1; L <= maxLen; L++ {
+			for L := minLen; L <= maxLen; L++ {
 				rep := make([]callElem, L)
 				for i := range rep {
 					rep[i] = e
@@ -917,36 +909,58 @@ func allSeqs(thorough bool) []seqSpec {
 			}
 		}
 	}
-	all := mutatingElems(nil)
 	for _, cfg := range []gateCfg{seqCfgNoRT, seqCfgOperate, seqCfgNoPrinc} {
-		sinkBlock(cfg, all, "AFS", 3)
+		sinkBlock(cfg, all, "AFS", 1, 3)
 	}
 	// the instance_* tools are only allowed with runtime control on; an allowed instance call takes >= 100 ms
 	// (the implementation polls the pid file / the process every 100 ms), hence the shorter sequences in quick
-	sinkBlock(seqCfgFull, mutatingElems(isInstanceTool), "AFS", 2)
+	sinkBlock(seqCfgFull, inst, "AFS", 1, 2)
 	if thorough {
-		for _, cfg := range []gateCfg{seqCfgNoRT, seqCfgOperate, seqCfgNoPrinc, seqCfgFull, seqCfgReadOnly} {
-			sinkBlock(cfg, all, alphabet, maxLen)
+		for _, cfg := range []gateCfg{seqCfgNoRT, seqCfgOperate, seqCfgNoPrinc, seqCfgFull} {
+			sinkBlock(cfg, all, "AFST", 1, 3)
+			sinkBlock(cfg, all, "AFS", 4, 4)
+		}
+		sinkBlock(seqCfgReadOnly, all, "AFS", 1, 2)
+	}
+
+	// Block "mix": X, N, X with a non-mutating frame N between two calls of a mutating tool.
+	mids := []callElem{{"#list", ""}, {"config_parse", "minimal"}, {"config_delete", "minimal"}, {"instance_status", "minimal"}}
+	mixCfgs := []gateCfg{seqCfgNoRT, seqCfgOperate, seqCfgNoPrinc}
+	if thorough {
+		mixCfgs = append(mixCfgs, seqCfgReadOnly)
+	}
+	for _, cfg := range mixCfgs {
+		for _, x := range all {
+			for _, n := range mids {
+				for _, ss := range []string{"AAA", "FAA", "SAA"} {
+					add("mix", cfg, "one", []callElem{x, n, x}, ss)
+				}
+			}
 		}
 	}
 
-	// Block "pair": two different calls X, Y as X,Y and X,Y,X (thorough: X,Y,X,Y and X,X,Y too): same tool in another
-	// shape (denied-then-allowed, allowed-then-denied, failed-then-allowed …) and every other tool (interleaving),
-	// with a clean sink, a failure on the first call and a failure in the middle.
-	pairBlock := func(cfg gateCfg, elems []callElem, splits []string, long bool) {
+	// Block "pair": two different calls X, Y as X,Y and X,Y,X: the same tool in another shape (denied-then-allowed,
+	// allowed-then-denied, failed-then-allowed …) and every other tool (interleaving), with a clean sink, a failure
+	// on the first call and a failure in the middle. level 1 adds more sink sequences, level 2 the templates
+	// X,Y,X,Y and X,X,Y.
+	pairBlock := func(cfg gateCfg, elems []callElem, splits []string, level int) {
+		two, three := []string{"AA", "FA"}, []string{"AAA", "AFA"}
+		if level >= 1 {
+			two, three = []string{"AA", "FA", "SA", "TA"}, []string{"AAA", "AFA", "FAA", "ASA", "SFA"}
+		}
 		for _, x := range elems {
 			for _, y := range elems {
 				if x == y {
 					continue
 				}
 				for _, split := range splits {
-					for _, ss := range []string{"AA", "FA", "SA"} {
+					for _, ss := range two {
 						add("pair", cfg, split, []callElem{x, y}, ss)
 					}
-					for _, ss := range []string{"AAA", "FAA", "AFA"} {
+					for _, ss := range three {
 						add("pair", cfg, split, []callElem{x, y, x}, ss)
 					}
-					if long {
+					if level >= 2 {
 						for _, ss := range []string{"AAAA", "AFAA", "ASFA", "FFAA"} {
 							add("pair", cfg, split, []callElem{x, y, x, y}, ss)
 						}
@@ -958,14 +972,13 @@ func allSeqs(thorough bool) []seqSpec {
 			}
 		}
 	}
-	pairBlock(seqCfgNoRT, all, []string{"one"}, false)
+	pairBlock(seqCfgNoRT, all, []string{"one"}, 0)
 	if thorough {
-		pairBlock(seqCfgNoRT, all, []string{"per-call"}, false)
-		pairBlock(seqCfgNoRT, all, []string{"one"}, true)
-		pairBlock(seqCfgOperate, all, []string{"one", "per-call"}, false)
-		pairBlock(seqCfgNoPrinc, all, []string{"one"}, false)
+		pairBlock(seqCfgNoRT, all, []string{"one"}, 2)
+		pairBlock(seqCfgNoRT, all, []string{"per-call"}, 1)
+		pairBlock(seqCfgOperate, all, []string{"one", "per-call"}, 0)
+		pairBlock(seqCfgNoPrinc, all, []string{"one"}, 0)
 		// with runtime control on: pairs in which at least one side is an instance_* tool
-		inst := mutatingElems(isInstanceTool)
 		for _, x := range all {
 			for _, y := range inst {
 				if x == y {
@@ -976,22 +989,6 @@ func allSeqs(thorough bool) []seqSpec {
 					if !isInstanceTool(x.Tool) {
 						add("pair", seqCfgFull, "one", []callElem{y, x}, ss)
 					}
-				}
-			}
-		}
-	}
-
-	// Block "mix": X, N, X with a non-mutating frame N between two calls of a mutating tool.
-	mids := []callElem{{"#list", ""}, {"config_parse", "minimal"}, {"config_delete", "minimal"}, {"instance_status", "minimal"}}
-	cfgs := []gateCfg{seqCfgNoRT, seqCfgOperate, seqCfgNoPrinc}
-	if thorough {
-		cfgs = append(cfgs, seqCfgReadOnly)
-	}
-	for _, cfg := range cfgs {
-		for _, x := range all {
-			for _, n := range mids {
-				for _, ss := range []string{"AAA", "FAA", "SAA"} {
-					add("mix", cfg, "one", []callElem{x, n, x}, ss)
 				}
 			}
 		}
@@ -1038,14 +1035,15 @@ func seqPart(r *runner.Run, fx *fixture, deadline time.Time) {
 		recChecked  = map[string]map[string]int{} // tool -> class -> records checked
 		relational  []finding
 		okN, errN   int
+		replayed    int
 		done        int
 		stopped     bool
 		samples     = map[string]any{}
 		debug       = os.Getenv("VERIF_C20_DEBUG")
 	)
 	sampleWanted := map[string]bool{
-		"sink|admin:m1r0:p1|one|dlq_delete/minimal/A,dlq_delete/minimal/F,dlq_delete/minimal/A":                true,
-		"pair|admin:m1r0:p1|one|messages_cancel/actor-other/F,config_apply/minimal/A":                         true,
+		"sink|admin:m1r0:p1|one|dlq_delete/minimal/A,dlq_delete/minimal/F,dlq_delete/minimal/A":                 true,
+		"pair|admin:m1r0:p1|one|messages_cancel/actor-other/F,config_apply/minimal/A":                           true,
 		"sink|operate:m1r1:p1|per-call|instance_stop/minimal/S,instance_stop/minimal/A,instance_stop/minimal/A": true,
 	}
 	jobs := make(chan int)
@@ -1103,8 +1101,9 @@ func seqPart(r *runner.Run, fx *fixture, deadline time.Time) {
 				done++
 				okN += sr.AuditFailAnsweredOK
 				errN += sr.AuditFailAnsweredErr
+				replayed += sr.Replayed
 				for i, o := range sr.Steps {
-					if o.Mutating && spec.Steps[i].Sink == "A" && o.Records == 1 {
+					if o.Mutating && spec.Steps[i].Sink == "A" && o.Records >= 1 {
 						if recChecked[spec.Steps[i].Tool] == nil {
 							recChecked[spec.Steps[i].Tool] = map[string]int{}
 						}
@@ -1170,10 +1169,10 @@ func seqPart(r *runner.Run, fx *fixture, deadline time.Time) {
 		// round robin over the key classes seq:audit / seq:gate / seq:effect / seq:list / …
 		groups := map[string][]string{}
 		for k := range found {
-			parts := strings.SplitN(k, ":", 3)
+			parts := strings.SplitN(k, ":", 4)
 			pre := k
-			if len(parts) >= 2 {
-				pre = parts[0] + ":" + parts[1]
+			if len(parts) >= 3 {
+				pre = parts[0] + ":" + parts[1] + ":" + parts[2]
 			}
 			groups[pre] = append(groups[pre], k)
 		}
@@ -1260,10 +1259,18 @@ func seqPart(r *runner.Run, fx *fixture, deadline time.Time) {
 	r.Set("seq_audit_records_checked_by_class", classes)
 	r.Set("seq_sequences_planned", len(seqs))
 	r.Set("seq_observed_outcome_of_allowed_call_whose_own_audit_write_failed", map[string]int{"answered_ok": okN, "answered_error": errN})
-	r.Set("seq_rule", "one long-lived mcp.Server per sequence, audit sink answer enumerated per call {A accept, F (0,ENOSPC), S half write + ErrShortWrite; thorough also T all-but-last-byte + EIO}; "+
-		"block sink: every mutating tool x shape {minimal, actor=other, unknown key, actor=principal} repeated L=1..3 (thorough 4) times x every sink sequence of that length x {one Serve session, one session per call on the same server} under the configurations admin/mutations (instance_* denied by flag), operate/mutations+runtime (admin tools denied by role), admin without principal (all denied); admin/mutations+runtime for the instance_* tools with L<=2 (thorough: all tools, L<=4, plus read/no flags); "+
-		"block pair: every ordered pair X != Y of the 56 (tool, shape) elements as X,Y and X,Y,X with sink sequences {AA,FA,SA} / {AAA,FAA,AFA} (thorough: per-call sessions, X,Y,X,Y and X,X,Y, operate and no-principal configurations, instance pairs with runtime control on); "+
-		"block mix: X,N,X with N in {tools/list frame, config_parse, unknown tool, instance_status} x {AAA,FAA,SAA}. Judged per call on the bytes the sink received during that call")
+	r.Set("seq_records_re_emitted_after_a_failed_write", replayed)
+	var sampleList []any
+	for _, k := range skeys {
+		sampleList = append(sampleList, samples[k])
+	}
+	r.Set("seq_samples", sampleList)
+	r.Set("seq_rule", "one long-lived mcp.Server per sequence, audit sink answer enumerated per call {A accept, F (0,ENOSPC), S half write + ErrShortWrite; thorough also T all-but-last-byte + EIO}. "+
+		"Call elements: 15 mutating tools x shape {minimal, actor=other, unknown key, actor=principal (11 actor-taking tools)} = 56. "+
+		"Block sink: every element repeated L=1..3 times x every sink sequence in {A,F,S}^L x {one Serve session, one session per call on the same server} under admin/mutations (instance_* denied by flag), operate/mutations+runtime (admin tools denied by role), admin without principal (all denied); admin/mutations+runtime for the instance_* tools with L<=2 (thorough: those three plus admin/mutations+runtime for all tools with {A,F,S,T}^L, L<=3 and {A,F,S}^4; read/no flags with L<=2). "+
+		"Block mix: X,N,X with N in {tools/list frame, config_parse, unknown tool, instance_status} x {AAA,FAA,SAA} under the three configurations (thorough: plus read/no flags). "+
+		"Block pair: every ordered pair X != Y of the 56 elements under admin/mutations as X,Y x {AA,FA} and X,Y,X x {AAA,AFA} in one session (thorough: more sink sequences {SA,TA,FAA,ASA,SFA}, per-call sessions, X,Y,X,Y and X,X,Y, the operate and no-principal configurations, pairs with an instance_* tool with runtime control on). "+
+		"Judged per call on the bytes the sink received during that call; a sequence is distinct by (block, configuration, split, steps, observed classes)")
 	r.Assume("sequence part: 'appends one audit record' is judged when the answer to the call has been written (before the server reads the next frame): the bytes the sink accepted during a call whose sink answer is 'accept' must be exactly one JSON object with the required fields; nothing is demanded about the audit output of a call whose own write the sink rejects or truncates")
 	r.Assume(fmt.Sprintf("the statement is silent on the outcome of an ALLOWED call whose own audit write fails; observed on this tree and not asserted: %d such calls (valid arguments, seeded state) answered ok, %d answered with an error. After a failed audit write the positive probe 'allowed call is answered without error' is not asserted either (a fail-closed server would satisfy the statement); gate denial, no-effect, tools/list and one-record-per-accepted-write are asserted regardless of the sink history", okN, errN))
 	r.Assume("sequence part: server configuration is fixed per server (options at construction, as internal/app/mcp.go does); exported fields are not changed between calls except In/Out for a new Serve session; sink failures are whole-call (every write during the call gets the same answer); a sink that blocks or panics is not modelled")
